@@ -150,6 +150,17 @@ func TestWorker(t *testing.T) {
 			os.Exit(0)
 		}
 	}
+	if len(WorkerSites) > 0 {
+		var ss, ps []string
+		for k := range WorkerSites {
+			ss = append(ss, k)
+		}
+		for k := range WorkerPairs {
+			ps = append(ps, k)
+		}
+		b, _ := json.Marshal(map[string][]string{"sites": ss, "pairs": ps})
+		fmt.Fprintf(out, "Z %s\n", b)
+	}
 	fmt.Fprintf(out, "E\n")
 	out.Flush()
 }
@@ -189,6 +200,8 @@ func loadFindings() []finding {
 }
 
 type workerRun struct {
+	sites   []string
+	pairs   []string
 	results []*Result
 	died    *Result // set when the process ended abnormally
 	stderr  string
@@ -280,6 +293,11 @@ func runWorker(cmd *exec.Cmd, timeout time.Duration) workerRun {
 				wr.results = append(wr.results, &r)
 				cur = -1
 			}
+		case strings.HasPrefix(line, "Z "):
+			var z map[string][]string
+			if json.Unmarshal([]byte(line[2:]), &z) == nil {
+				wr.sites, wr.pairs = z["sites"], z["pairs"]
+			}
 		case line == "E" || strings.HasPrefix(line, "X "):
 			finished = true
 		}
@@ -324,12 +342,13 @@ type agg struct {
 	violCount  map[string]int
 	harness    []*Result
 	siteSet    map[string]struct{}
+	pairSet    map[string]struct{}
 }
 
 func newAgg() *agg {
 	return &agg{outcomes: map[string]int{}, fired: map[string]int{}, probes: map[string]int{}, cells: map[string]int{},
 		digests: map[string]struct{}{}, nontrivial: map[string]struct{}{}, viol: map[string]*Result{}, violCount: map[string]int{},
-		siteSet: map[string]struct{}{}}
+		siteSet: map[string]struct{}{}, pairSet: map[string]struct{}{}}
 }
 
 func (a *agg) add(r *Result) {
@@ -454,6 +473,14 @@ func parentMain() int {
 							}
 						}
 					}
+					a.mu.Lock()
+					for _, x := range wr.sites {
+						a.siteSet[x] = struct{}{}
+					}
+					for _, x := range wr.pairs {
+						a.pairSet[x] = struct{}{}
+					}
+					a.mu.Unlock()
 					done := 0
 					for _, r := range wr.results {
 						a.add(r)
@@ -841,6 +868,10 @@ func writeEvidence(prop *Prop, tier string, base uint64, a *agg, wall float64, v
 	}
 	if len(a.siteSet) > 0 {
 		cov["yield_sites_reached"] = len(a.siteSet)
+		cov["ordered_site_pairs_seen"] = len(a.pairSet)
+		if b, err := os.ReadFile(os.Getenv("VERIF_SITES_FILE")); err == nil {
+			cov["yield_sites_woven"] = len(strings.Split(strings.TrimSpace(string(b)), "\n"))
+		}
 	}
 	ev := map[string]any{
 		"property_id": prop.ID,
